@@ -107,7 +107,7 @@ func (n *Node) LedgerPath() string {
 	return filepath.Join(n.Env.GenDataAbsPath(n.Env.ChainDir), BCName, "ledger")
 }
 func (n *Node) StatePath() string {
-	return filepath.Join(n.Env.GenDataAbsPath(n.Env.ChainDir), BCName, "state")
+	return filepath.Join(n.Env.GenDataAbsPath(n.Env.ChainDir), BCName, "utxoVM")
 }
 
 // NewNode creates a fresh node: ledger with confirmed + played root block.
